@@ -24,7 +24,7 @@ func init() {
 			"R17.4: the exported graph covers every input and output kind and reads all three tables. " +
 			"R17.5: registration is all-or-nothing — after the adapter constructor ran (it adds to the database), an error return rolls the controller's entries back; the rollback is reachable only from that failure, never from the duplicate-name rejection. " +
 			"R17.6: event delivery uses controllers[name] only behind a presence test. R17.7: duplicate-name guard before adapter creation, map insert only on success, under controllersMu. R17.8: each runtime flavour rejects exactly the other flavour's input kinds.",
-		NotCovered: "the sorted-merge algorithm of UpdateInputs (only its success exit and kind validation are pinned); histories.",
+		NotCovered:  "the sorted-merge algorithm of UpdateInputs (only its success exit and kind validation are pinned); histories.",
 		Assumptions: []string{"slices.Concat / slices.Clone return fresh slices"},
 		Run:         runC17,
 	})
@@ -49,7 +49,7 @@ func runC17(c *Ctx) {
 	if f := p.Method(pkgDep, "Database", "AddControllerOutput"); c.NeedFunc("R17.2", f, dbT+".AddControllerOutput") {
 		noExcl := FactEdge("false(lookup(*param#0.exclusiveOutputs,param#2.Type)#1)", "false(lookup(*param#0.exclusiveOutputs,*param#2*.Type)#1)", "false(lookup(*param#0.exclusiveOutputs,*.Type)#1)")
 		noShared := FactEdge("false(lookup(*param#0.sharedOutputs,*.Type)#1)")
-		notListed := FactEdge("false(call:slices.BinarySearch(lookup(*param#0.sharedOutputs,*.Type),param#1)#1)")
+		notListed := FactEdge("false(call:slices.BinarySearch(lookup(*param#0.sharedOutputs,*.Type)*,param#1)#1)")
 
 		c.MustCut("R17.2", "exclusive claim ⊣ {no exclusive owner}", f, tableWrite("exclusiveOutputs"), CutSpec{Edges: noExcl}, 1)
 		c.MustCut("R17.2", "exclusive claim ⊣ {no shared owner}", f, tableWrite("exclusiveOutputs"), CutSpec{Edges: noShared}, 1)
@@ -234,7 +234,10 @@ func runC17(c *Ctx) {
 
 		// deferred rollbacks run on every exit after they are registered: treat the defer as the call site and demand the same guards
 		starts := p.EdgeSuccs(body, ctorErr)
-		if len(Find(body, func(in ssa.Instruction) bool { d, ok := in.(*ssa.Defer); return ok && p.ReachesCall(StaticOrClosureCalleeOf(d), rollback, 1) })) > 0 {
+		if len(Find(body, func(in ssa.Instruction) bool {
+			d, ok := in.(*ssa.Defer)
+			return ok && p.ReachesCall(StaticOrClosureCalleeOf(d), rollback, 1)
+		})) > 0 {
 			c.Bad("R17.5", FuncName(body)+" :: rollback is an explicit call on the constructor-failure path", fpos(body),
 				"the rollback is deferred: it also runs for rejections that happen before anything was added (e.g. duplicate name), wiping an existing controller's entries")
 		}
